@@ -22,11 +22,11 @@ Reset == /\ Ev("reset")
   /\ aFC' = [s \in Streams |-> 0] /\ aFCc' = 0 /\ aCred' = [s \in Streams |-> 0] /\ aCredC' = 0 /\ aInit' = W0
   /\ sentLog' = [s \in Streams |-> <<>>] /\ dlvLog' = [s \in Streams |-> <<>>]
   /\ nSend' = 0 /\ nCtl' = 0 /\ hcount' = 0 /\ encOrder' = <<>> /\ dlvOrder' = <<>>
-  /\ pings' = {} /\ goneAway' = "no" /\ aClosed' = FALSE /\ sets' = [a2b |-> 0, b2a |-> 0, ackA |-> 0, ackB |-> 0]
+  /\ pings' = {} /\ goneAway' = "no" /\ aClosed' = FALSE /\ sets' = [a2b |-> 0, b2a |-> 0, ackA |-> 0, ackB |-> 0, gone |-> FALSE, dead |-> FALSE]
   /\ pendA' = <<>> /\ seenCred' = [s \in Streams |-> 0] /\ seenCredC' = 0
 
 \* --- logged: A hands a frame to the wire
-LogA == /\ (Ev("a_data") \/ Ev("a_headers") \/ Ev("a_cont") \/ Ev("a_rst") \/ Ev("a_push") \/ Ev("a_prio") \/ Ev("a_ping") \/ Ev("a_goaway") \/ Ev("a_close") \/ Ev("a_unknown") \/ Ev("a_settings_sent"))
+LogA == /\ (Ev("a_data") \/ Ev("a_headers") \/ Ev("a_cont") \/ Ev("a_rst") \/ Ev("a_push") \/ Ev("a_prio") \/ Ev("a_ping") \/ Ev("a_goaway") \/ Ev("a_close") \/ Ev("a_close_full") \/ Ev("a_unknown") \/ Ev("a_settings_sent"))
         /\ pendA' = Append(pendA, T)
         /\ UNCHANGED <<vars, seenCred, seenCredC>>
 \* --- unlogged: relayFrames reads it and processFrame runs
@@ -41,11 +41,14 @@ ProcA == /\ pendA # <<>> /\ pendA' = Tail(pendA)
                 [] e.ev = "a_ping"    -> ASendPing(e.n)
                 [] e.ev = "a_goaway"  -> ASendGoAway
                 [] e.ev = "a_close"   -> ASendClose
+                [] e.ev = "a_close_full" -> ASendCloseFull
                 [] e.ev = "a_unknown" -> ASendUnknown
                 [] e.ev = "a_settings_sent" -> ASendSettings
          /\ UNCHANGED <<l, seenCred, seenCredC>>
 \* --- logged: B sends a control frame
-LogB == /\ Ev("b_ctl") /\ BCtl([t |-> T.t, s |-> T.s, v |-> T.v])
+LogB == /\ \/ Ev("b_ctl") /\ BCtl([t |-> T.t, s |-> T.s, v |-> T.v])
+           \* (the PING is sent once the sender's close has been seen by the relay: the harness waits)
+           \/ Ev("b_ping_sent") /\ pendA = <<>> /\ BSendPing
         /\ UNCHANGED <<pendA, seenCred, seenCredC>>
 \* --- logged: B receives a frame: it must be the head of the ordered output channel
 LogRecv == /\ Ev("b_recv") /\ out # <<>>
@@ -70,7 +73,7 @@ LogCredit == /\ Ev("a_credit")
 \* --- logged: the harness declares quiescence: everything must have been explained
 LogQuiet == /\ Ev("quiet") /\ pendA = <<>> /\ ctl = <<>> /\ out = <<>>
             /\ pings = {} /\ goneAway # "sent" /\ SetsDone                       \* PING / GOAWAY / SETTINGS and their acknowledgements were relayed (C10)
-            /\ seenCredC = aFCc /\ \A s \in Streams : seenCred[s] = aFC[s]      \* all credit returned (C09)
+            /\ (sets.gone \/ (seenCredC = aFCc /\ \A s \in Streams : seenCred[s] = aFC[s]))      \* all credit returned (C09) - to a sender that is there
             /\ \A s \in Streams : q[s] = <<>> => dlvLog[s] = sentLog[s]          \* nothing lost (C10)
             /\ UNCHANGED <<vars, pendA, seenCred, seenCredC>>
 Silent == /\ UNCHANGED <<l, seenCred, seenCredC>>
